@@ -43,6 +43,7 @@ type Scenario struct {
 	GrowBy            int  // > 0: the last interceptor also pads the value by this many bytes (a message may outgrow MaxMessageBytes)
 	SyncCloseMid      bool // sync producer: Close is called while the calls of the last burst (one goroutine per message) are pending
 	NilIcept          bool // the interceptor list has a nil slot after its first entry (a disabled interceptor)
+	ErrorsOff         bool // Producer.Return.Errors = false; the recycled structs are those of messages that failed after a retry (focus C18)
 	Recycle           int  // the last Recycle messages are submitted by re-using the structs of earlier messages that already have their outcome
 	ReuseConfig       bool // after the producer has closed, a second producer is built from the SAME Config and sends two messages
 	Msgs              []Msg
@@ -94,6 +95,7 @@ type Result struct {
 	Events     []Event
 	closeNow   int32 // set by the hook sink when CloseAtEvent is reached
 	CloseHang  bool
+	evSnap     func() []Event // the hook events so far (copy)
 	Reuse      []string // interceptor marks of the messages of a second producer built from the same Config
 	SyncStuck  int      // sync producer: calls that never returned after Close was called while they were pending
 	ClosedOK   bool
@@ -376,6 +378,11 @@ func Gen(seed uint64, focus string) *Scenario {
 			}
 		}
 	}
+	// (focus C18 only, generator of its own) the application does not read errors: Return.Errors is off, and the structs it
+	// re-uses are those of messages the producer dropped after at least one retry
+	if re := hlib.NewRand(seed ^ 0x6572726f72736f66); focus == "C18" && sc.Recycle > 0 && re.Chance(2, 3) {
+		sc.ErrorsOff = true
+	}
 	return sc
 }
 
@@ -392,7 +399,7 @@ func (sc *Scenario) String() string {
 	}
 	return fmt.Sprintf("seed=%d focus=%s brokers=%d parts=%d retry=%d flush=%d/%d/%dms max=%d maxbytes=%d idem=%v acks=%d ver=%s buf=%d codec=%d icepts=%d/%d msgs=%d closeAfter=%d faults=[%s] sync=%v",
 		sc.Seed, sc.Focus, sc.Brokers, sc.Partitions, sc.RetryMax, sc.FlushMsgs, sc.FlushBytes, sc.FlushFreq, sc.MaxMsgs, sc.MaxMsgByte,
-		sc.Idempotent, sc.Acks, sc.Version, sc.ChanBuf, sc.Codec, sc.Icepts, sc.PanicIcept, len(sc.Msgs), sc.CloseAfter, strings.Join(fs, ","), sc.Sync) + fmt.Sprintf(" latency=%dms growBy=%d recycle=%d", sc.LatencyMs, sc.GrowBy, sc.Recycle)
+		sc.Idempotent, sc.Acks, sc.Version, sc.ChanBuf, sc.Codec, sc.Icepts, sc.PanicIcept, len(sc.Msgs), sc.CloseAfter, strings.Join(fs, ","), sc.Sync) + fmt.Sprintf(" latency=%dms growBy=%d recycle=%d errorsOff=%v", sc.LatencyMs, sc.GrowBy, sc.Recycle, sc.ErrorsOff)
 }
 
 func payload(id, n int) []byte {
@@ -469,7 +476,7 @@ func Run(sc *Scenario) *Result {
 	cfg := sarama.NewConfig()
 	cfg.Version = sc.Version
 	cfg.Producer.Return.Successes = true
-	cfg.Producer.Return.Errors = true
+	cfg.Producer.Return.Errors = !sc.ErrorsOff
 	cfg.Producer.Retry.Max = sc.RetryMax
 	cfg.Producer.Retry.Backoff = time.Millisecond
 	cfg.Producer.Flush.Messages = sc.FlushMsgs
@@ -537,6 +544,11 @@ func Run(sc *Scenario) *Result {
 		}
 	}
 	defer func() { sarama.VerifSink = nil }()
+	res.evSnap = func() []Event {
+		evMu.Lock()
+		defer evMu.Unlock()
+		return append([]Event(nil), res.Events...)
+	}
 	// a panic inside a goroutine of the library must not take the harness process down: it is an outcome
 	sarama.PanicHandler = func(v interface{}) {
 		evMu.Lock()
@@ -580,7 +592,7 @@ func Run(sc *Scenario) *Result {
 	for p := int32(0); p < sc.Partitions; p++ {
 		res.Logs[p] = sim.Log("t", p)
 	}
-	if sc.ReuseConfig && sc.Icepts > 0 && res.ClosedOK && !sc.Sync && res.NewErr == "" {
+	if sc.ReuseConfig && !sc.ErrorsOff && sc.Icepts > 0 && res.ClosedOK && !sc.Sync && res.NewErr == "" {
 		// a second producer built from the same Config value: the interceptor chain must still run once per message, in
 		// configuration order (its hook events are not part of the first producer's trace)
 		sarama.VerifSink = nil
@@ -724,6 +736,9 @@ func runAsync(sc *Scenario, cfg *sarama.Config, sim *sarama.VerifSim, msgs []*sa
 			mu.Lock()
 			n := len(res.Outcomes)
 			mu.Unlock()
+			if sc.ErrorsOff {
+				n += len(droppedIDs(res, 0)) // errors are not reported: the hook event of returnError stands for the outcome
+			}
 			if n >= len(res.Submitted) || atomic.LoadInt32(&res.closeNow) == 1 {
 				break
 			}
@@ -737,6 +752,47 @@ func runAsync(sc *Scenario, cfg *sarama.Config, sim *sarama.VerifSim, msgs []*sa
 		mu.Lock()
 		all := len(res.Outcomes) >= len(res.Submitted)
 		mu.Unlock()
+		srcOf := func(k int) *sarama.ProducerMessage { return msgs[k] }
+		if sc.ErrorsOff {
+			// re-use the structs of messages that were dropped after a retry; a struct is the application's again once the
+			// producer has reset it (bounded wait: a producer that never resets it is what this family is about)
+			dropped := droppedIDs(res, 1)
+			all = len(res.Outcomes)+len(droppedIDs(res, 0)) >= len(res.Submitted)
+			byID := map[int]*sarama.ProducerMessage{}
+			for i := 0; i < limit; i++ {
+				byID[sc.Msgs[i].ID] = msgs[i]
+			}
+			var srcs []*sarama.ProducerMessage
+			for _, id := range dropped {
+				if m := byID[id]; m != nil {
+					srcs = append(srcs, m)
+				}
+			}
+			until := time.Now().Add(300 * time.Millisecond)
+			for _, m := range srcs {
+				for sarama.VerifMsgRetries(m) != 0 && time.Now().Before(until) {
+					time.Sleep(time.Millisecond)
+				}
+			}
+			time.Sleep(2 * time.Millisecond)
+			succeeded := map[*sarama.ProducerMessage]bool{}
+			mu.Lock()
+			for _, o := range res.Outcomes {
+				if o.Err == "" {
+					succeeded[byID[o.ID]] = true
+				}
+			}
+			mu.Unlock()
+			for i := 0; i < limit && len(srcs) < sc.Recycle; i++ {
+				if succeeded[msgs[i]] {
+					srcs = append(srcs, msgs[i]) // not enough dropped ones: structs of acknowledged messages
+				}
+			}
+			if len(srcs) < sc.Recycle {
+				all = false
+			}
+			srcOf = func(k int) *sarama.ProducerMessage { return srcs[k] }
+		}
 		if all {
 			// every earlier message has its outcome: its struct is the application's again
 			func() {
@@ -746,7 +802,7 @@ func runAsync(sc *Scenario, cfg *sarama.Config, sim *sarama.VerifSim, msgs []*sa
 					}
 				}()
 				for k := 0; k < sc.Recycle; k++ {
-					src, tgt := msgs[k], msgs[limit+k]
+					src, tgt := srcOf(k), msgs[limit+k]
 					src.Topic, src.Key, src.Value, src.Headers = tgt.Topic, tgt.Key, tgt.Value, tgt.Headers
 					src.Metadata, src.Partition, src.Timestamp, src.Offset = tgt.Metadata, tgt.Partition, tgt.Timestamp, 0
 					select {
@@ -768,6 +824,20 @@ func runAsync(sc *Scenario, cfg *sarama.Config, sim *sarama.VerifSim, msgs []*sa
 	case <-time.After(8 * time.Second):
 		res.CloseHang = true
 	}
+}
+
+// droppedIDs: ids of submitted messages for which returnError ran with at least minRetries retries (hook event ret.err)
+func droppedIDs(res *Result, minRetries int) []int {
+	var ids []int
+	if res.evSnap == nil {
+		return nil
+	}
+	for _, e := range res.evSnap() {
+		if e.Kind == "ret.err" && e.ID > 0 && e.A >= minRetries {
+			ids = append(ids, e.ID)
+		}
+	}
+	return ids
 }
 
 func runSync(sc *Scenario, cfg *sarama.Config, sim *sarama.VerifSim, msgs []*sarama.ProducerMessage, res *Result) {
